@@ -209,6 +209,20 @@ def OpOK (e : Env) : Op → Prop
   | .openRead d n => e.exactFirst = true ∨ fp2 d n ≠ []
   | _ => True
 
+instance (e : Env) (op : Op) : Decidable (OpOK e op) := by
+  cases op with
+  | has n => cases n <;> (unfold OpOK; infer_instance)
+  | openRead d n => unfold OpOK; infer_instance
+  | reset => unfold OpOK; infer_instance
+  | addBuf n b => unfold OpOK; infer_instance
+  | addFile d f => unfold OpOK; infer_instance
+  | del n => unfold OpOK; infer_instance
+  | hasFile d f => unfold OpOK; infer_instance
+
+theorem code_one_iff (x : Option Bytes) :
+    Out.code (if x.isSome = true then 1 else 0) = Out.code 1 ↔ ∃ b, x = some b := by
+  cases x <;> simp
+
 theorem OpOK_fixed (disk : List (Str × DiskEntry)) (op : Op) : OpOK (Env.fixed disk) op := by
   cases op with
   | has n => cases n <;> simp [OpOK, Env.fixed]
@@ -448,5 +462,87 @@ theorem run_append (e : Env) (t : Tbl) (a b : List Op) :
   induction a generalizing t with
   | nil => simp [run]
   | cons op a ih => simp [run, ih]
+
+/-! ## the history notions in terms of observed return codes -/
+
+/-- `op` is an add (buffer or file) whose key is `k` and contents `b`, and it returned 0 on table `t`. -/
+def AddedOk (e : Env) (t : Tbl) (op : Op) (k : Str) (b : Bytes) : Prop :=
+  addTarget e op = some (k, b) ∧ (step e t op).1 = .code 0
+
+/-- `op`, executed on table `t`, is a reset, or a delete that returned 0 and removed the key `k`
+    (the normalised name if that is present, otherwise the lower-cased basename). -/
+def DeletedOk (e : Env) (t : Tbl) (op : Op) (k : Str) : Prop :=
+  op = .reset ∨
+  ∃ n, op = .del (some n) ∧ (step e t op).1 = .code 0 ∧ k = (if t.has (fp1 n) then fp1 n else delKey2 n)
+
+theorem step_add_code (e : Env) (t : Tbl) (op : Op) (k : Str) (b : Bytes)
+    (h : addTarget e op = some (k, b)) : (step e t op).1 = .code (addCode (abs t) k) := by
+  cases op with
+  | addBuf n c =>
+    simp only [addTarget, Option.some.injEq, Prod.mk.injEq] at h
+    obtain ⟨rfl, rfl⟩ := h
+    simp [step, (mount_abs t (fp1 n) c).1]
+  | addFile d f =>
+    simp only [addTarget] at h
+    cases hr : e.readFile (fp2 d f) with
+    | none => simp [hr] at h
+    | some c =>
+      simp only [hr, Option.map_some, Option.some.injEq, Prod.mk.injEq] at h
+      obtain ⟨rfl, rfl⟩ := h
+      simp [step, hr, (mount_abs t (fileKey d f) c).1]
+  | reset => simp [addTarget] at h
+  | del n => simp [addTarget] at h
+  | has n => simp [addTarget] at h
+  | hasFile d f => simp [addTarget] at h
+  | openRead d n => simp [addTarget] at h
+
+theorem Inserts_iff_AddedOk (e : Env) (t : Tbl) (op : Op) (k : Str) (b : Bytes) :
+    Inserts e (abs t) op k b ↔ AddedOk e t op k b := by
+  rw [specEffect_ins_iff]
+  unfold AddedOk
+  constructor
+  · rintro ⟨h, hk⟩
+    refine ⟨h, ?_⟩
+    rw [step_add_code e t op k b h]
+    simp [addCode, hk]
+  · rintro ⟨h, hc⟩
+    refine ⟨h, ?_⟩
+    rw [step_add_code e t op k b h] at hc
+    unfold addCode at hc
+    cases hs : (abs t k).isSome
+    · simpa using hs
+    · simp [hs] at hc
+
+theorem Removes_iff_DeletedOk (e : Env) (t : Tbl) (op : Op) (k : Str) :
+    Removes e (abs t) op k ↔ DeletedOk e t op k := by
+  unfold Removes DeletedOk
+  cases op with
+  | reset => simp [specEffect]
+  | addBuf n c =>
+    simp only [specEffect, addTarget, addEff]
+    cases (abs t (fp1 n)).isSome <;> simp
+  | addFile d f =>
+    simp only [specEffect, addTarget, addEff]
+    cases e.readFile (fp2 d f) with
+    | none => simp
+    | some c =>
+      simp only [Option.map_some]
+      cases (abs t (fileKey d f)).isSome <;> simp
+  | has n => simp [specEffect]
+  | hasFile d f => simp [specEffect]
+  | openRead d n => simp [specEffect]
+  | del n =>
+    cases n with
+    | none => simp [specEffect, delTarget]
+    | some n =>
+      have hc := (deleteFile_abs t (some n)).1
+      simp only [specEffect, delTarget, step, has_eq, hc]
+      by_cases ha : (abs t (fp1 n)).isSome = true
+      · simp [ha]
+        exact eq_comm
+      · by_cases hb : (abs t (delKey2 n)).isSome = true
+        · simp [ha, hb]
+          exact eq_comm
+        · simp [ha, hb]
 
 end MjProof.Vfs
